@@ -1,5 +1,6 @@
 CFG = {
-    "jobs": lambda tier: [J("scaled", "c10")],
+    "jobs": lambda tier: [J("scaled", "c10", imports="Base Stream Inst Run RunHistStack")],
+    "run_modules": ["RunHistStack"],
     "rule": "scaled constants: generated archives (1-4 files, boundary-sized interleaved pieces, 4 layer combinations, levels {0,1,5,9,11}, "
             "1-3 recipients) each with a random history of 4-14 (quick) / 4-30 (thorough) operations: list, hash, open + 0-4 reads of sizes "
             "{0,1,7,13,23,64,65,100,4099} then abandon, read to the end with one buffer size, unknown names; non-trivial = the archive has content; "
@@ -7,8 +8,9 @@ CFG = {
     "exhaustive": {"quick": False, "thorough": False},
     "explanation": "theorems: every operation's result in any history equals its result on the freshly opened reader, for every top-layer "
                    "stream whose absolute seek forgets state (cursor; preserved by the encryption reader), any archive bytes; correspondence: "
-                   "rows of the real ArchiveReader along the history equal the model's (layer-less and encrypted archives, concrete AES-GCM in "
-                   "Coq); archive level for the full stack (HistStack.v): every Reader.v operation respects any bisimulation of the stream calls, so "
+                   "rows of the real ArchiveReader along the history equal the model's (all four layer combinations below 4000 bytes: concrete AES-GCM in Coq; for archives with the "
+                   "compression layer the model runs the stack compression∘(encryption∘)raw∘cursor over the whole archive (RunHistStack.v) with brotli as a "
+                   "table of the archive's blocks decoded by the brotli crate, reads compared after read-until-n-or-end); archive level for the full stack (HistStack.v): every Reader.v operation respects any bisimulation of the stream calls, so "
                    "hist_groups over compression∘encryption∘raw∘cursor is history independent for ANY archive bytes while the reader is in the stack "
                    "invariant (compression reader not poisoned, same sizes_info and offset_pos), which is carried along the history when every "
                    "operation leaves the FRESH reader in it; oracle on all layer combinations: each operation in the history == the same operation on a fresh reader == what was written",
